@@ -3,31 +3,75 @@ import Hifi.Gen.Dyn
 /-
   ET and TDB (src/epoch/mod.rs: `delta_et_tai`, `inner_g`, the ET/TDB arms of `to_time_scale`).
 
-  The algorithm is written ONCE, generically over a carrier `α` with `+ - *`, a sine and decimal
-  literals.  Instantiated at Lean's hardware `Float` (with the platform `sin`, as Rust's `f64::sin`)
-  it runs in the driver and is compared with the implementation; instantiated at `ℝ` (Mathlib's
-  `Real.sin`) it is what `Props/C07` proves theorems about.  Import-free.
+  Every floating-point expression of the Rust code is written ONCE, generically over a carrier `α`
+  with `+ - * /`, negation, a sine, an absolute value and a decidable `<`, operation for operation and in
+  the order of the source (`…G` definitions below).  The executable model is the instance at Lean's
+  hardware `Float` (with the platform `sin`, as Rust's `f64::sin`): `deltaEtTaiF`, `innerGF`, `etToTai`,
+  `taiToEt`, `tdbToTai`, `taiToTdb` are defined as applications of the `…G` definitions and nothing else
+  touches a float between `Duration::to_seconds` and `f64 * Unit::Second`.  The instance at `ℝ` (Mathlib's
+  `Real.sin`, `|·|`) is what `Props/C07` proves theorems about.  Import-free.
 -/
 namespace Hifi.Dyn
 
-/-- the periodic term `K·sin(E)`, `E = M + EB·sin M`, `M = M0 + M1·t` -/
+/-- the closed form of the property text: the periodic term `K·sin(E)`, `E = M + EB·sin M`, `M = M0 + M1·t`
+    (specification vocabulary for `Props/C07`; the code-shaped definitions follow) -/
 def periodic {α} [Add α] [Mul α] (sin : α → α) (K EB M0 M1 t : α) : α :=
   K * sin (M0 + M1 * t + EB * sin (M0 + M1 * t))
 
-/-- n steps `s ← s + sgn·periodic(s)` (the code's "Newton Raphson" loops: 5 steps) -/
-def iterate {α} [Add α] [Mul α] (sin : α → α) (K EB M0 M1 sgn : α) : Nat → α → α
-  | 0, s => s
-  | n + 1, s => iterate sin K EB M0 M1 sgn n (s + sgn * periodic sin K EB M0 M1 s)
+/-! ### the Rust expressions, generically (one definition per source expression) -/
 
-/-- TAI → ET on seconds past J2000: the offset `ET − TAI` the code adds, for TAI seconds `t`
-    (`tt` = 32.184): five steps `s += K sin E(s)`, then `tt + K sin E(s + tt)` -/
-def etMinusTai {α} [Add α] [Mul α] [OfNat α 1] (sin : α → α) (K EB M0 M1 tt t : α) : α :=
-  tt + periodic sin K EB M0 M1 (iterate sin K EB M0 M1 1 5 t + tt)
+/-- `Epoch::delta_et_tai(seconds)`:
+    `let m = NAIF_M0 + seconds * NAIF_M1; let e = m + NAIF_EB * m.sin(); tt + NAIF_K * e.sin()` -/
+def deltaEtTaiG {α} [Add α] [Mul α] (sin : α → α) (K EB M0 M1 tt seconds : α) : α :=
+  let m := M0 + seconds * M1
+  let e := m + EB * sin m
+  tt + K * sin e
 
-/-- ET → TAI: the offset the code subtracts, for ET seconds `e`: five steps `s −= K sin E(s)`,
-    then `tt + K sin E(s − tt)` -/
-def etMinusTaiBack {α} [Add α] [Sub α] [Mul α] [Neg α] [OfNat α 1] (sin : α → α) (K EB M0 M1 tt e : α) : α :=
-  tt + periodic sin K EB M0 M1 (iterate sin K EB M0 M1 (-1) 5 e - tt)
+/-- `Epoch::inner_g(seconds)`:
+    `let g = TAU / 360.0 * 357.528 + 1.990_910_018_065_731e-7 * seconds; 1.658e-3 * (g + 1.67e-2 * g.sin()).sin()` -/
+def innerGG {α} [Add α] [Mul α] [Div α] (sin : α → α) (TAU c360 G0 G1 K EB seconds : α) : α :=
+  let g := TAU / c360 * G0 + G1 * seconds
+  K * sin (g + EB * sin g)
+
+/-- body of the loop of the ET SOURCE arm:
+    `s += -NAIF_K * (NAIF_M0 + NAIF_M1 * s + NAIF_EB * (NAIF_M0 + NAIF_M1 * s).sin()).sin()` -/
+def etStepSrcG {α} [Add α] [Mul α] [Neg α] (sin : α → α) (K EB M0 M1 s : α) : α :=
+  s + (-K) * sin (M0 + M1 * s + EB * sin (M0 + M1 * s))
+
+/-- body of the loop of the ET TARGET arm: `s -= -NAIF_K * (… same …).sin()` -/
+def etStepTgtG {α} [Add α] [Sub α] [Mul α] [Neg α] (sin : α → α) (K EB M0 M1 s : α) : α :=
+  s - (-K) * sin (M0 + M1 * s + EB * sin (M0 + M1 * s))
+
+/-- ET source arm, the float part: `s0 = self.duration.to_seconds()`, five loop bodies, then
+    `delta_et_tai(s5 - tt)`; the result is the `ET − TAI` the arm subtracts -/
+def etSrcDeltaG {α} [Add α] [Sub α] [Mul α] [Neg α] (sin : α → α) (K EB M0 M1 tt s0 : α) : α :=
+  let s5 := etStepSrcG sin K EB M0 M1 (etStepSrcG sin K EB M0 M1 (etStepSrcG sin K EB M0 M1
+              (etStepSrcG sin K EB M0 M1 (etStepSrcG sin K EB M0 M1 s0))))
+  deltaEtTaiG sin K EB M0 M1 tt (s5 - tt)
+
+/-- ET target arm, the float part: `s0 = (tai - J2000).to_seconds()`, five loop bodies, then
+    `delta_et_tai(s5 + tt)`; the result is the `ET − TAI` the arm adds -/
+def etTgtDeltaG {α} [Add α] [Sub α] [Mul α] [Neg α] (sin : α → α) (K EB M0 M1 tt s0 : α) : α :=
+  let s5 := etStepTgtG sin K EB M0 M1 (etStepTgtG sin K EB M0 M1 (etStepTgtG sin K EB M0 M1
+              (etStepTgtG sin K EB M0 M1 (etStepTgtG sin K EB M0 M1 s0))))
+  deltaEtTaiG sin K EB M0 M1 tt (s5 + tt)
+
+/-- the loop of the TDB target arm (`g` = `inner_g`, `eps` = 1e-9), `n` remaining rounds:
+    `let next = seconds - g(seconds); let new_delta = (next - seconds).abs();
+     if (new_delta - delta).abs() < 1e-9 { break } seconds = next; delta = new_delta` -/
+def tdbLoopG {α} [Sub α] [LT α] [∀ a b : α, Decidable (a < b)] (abs g : α → α) (eps : α) : Nat → α → α → α
+  | 0, seconds, _ => seconds
+  | n + 1, seconds, delta =>
+    let next := seconds - g seconds
+    let newDelta := abs (next - seconds)
+    if abs (newDelta - delta) < eps then seconds else tdbLoopG abs g eps n next newDelta
+
+/-- TDB target arm, the float part: `s0 = (tai - J2000).to_seconds()`, the loop (5 rounds, `delta = 1e8`),
+    then `inner_g(seconds + tt)`; the result is `gamma`, and the arm adds `gamma.seconds() + 32.184 s` -/
+def tdbTgtGammaG {α} [Add α] [Sub α] [Mul α] [Div α] [LT α] [∀ a b : α, Decidable (a < b)]
+    (sin abs : α → α) (TAU c360 G0 G1 K EB tt eps c1e8 s0 : α) : α :=
+  let s := tdbLoopG abs (innerGG sin TAU c360 G0 G1 K EB) eps 5 s0 c1e8
+  innerGG sin TAU c360 G0 G1 K EB (s + tt)
 
 /-! ### hardware instance -/
 
@@ -81,25 +125,19 @@ def secondsDur (x : Float) : Dur :=
 /-- `(TT_OFFSET_MS * Unit::Millisecond).to_seconds()` -/
 def ttSecondsF : Float := toSecondsF ttOffset
 
-/-- `Epoch::delta_et_tai` -/
+/-- `Epoch::delta_et_tai` at binary64 -/
 def deltaEtTaiF (seconds : Float) : Float :=
-  let m := fM0 + seconds * fM1
-  let e := m + fEB * m.sin
-  ttSecondsF + fK * e.sin
+  deltaEtTaiG Float.sin fK fEB fM0 fM1 ttSecondsF seconds
 
-/-- `Epoch::inner_g` -/
+/-- `Epoch::inner_g` at binary64 -/
 def innerGF (seconds : Float) : Float :=
-  let g := fTAU / f360 * gG0 + gG1 * seconds
-  gK * (g + gEB * g.sin).sin
+  innerGG Float.sin fTAU f360 gG0 gG1 gK gEB seconds
 
 def etPrimeOffset : Dur := ⟨Gen.PRIME_OFFSET_ET_C, Gen.PRIME_OFFSET_ET_NS⟩
 
 /-- ET source arm: duration past J2000 ET → TAI duration past 1900 -/
 def etToTai (d : Dur) : Dur :=
-  let s0 := toSecondsF d
-  let step (s : Float) : Float := s + (-fK) * (fM0 + fM1 * s + fEB * (fM0 + fM1 * s).sin).sin
-  let s5 := step (step (step (step (step s0))))
-  let delta := deltaEtTaiF (s5 - ttSecondsF)
+  let delta := etSrcDeltaG Float.sin fK fEB fM0 fM1 ttSecondsF (toSecondsF d)
   Dur.add (Dur.sub d (secondsDur delta)) etPrimeOffset
 
 /-- TDB source arm -/
@@ -110,24 +148,13 @@ def tdbToTai (d : Dur) : Dur :=
 
 /-- ET target arm: TAI duration past 1900 → ET duration past J2000 -/
 def taiToEt (p : Dur) : Dur :=
-  let s0 := toSecondsF (Dur.sub p etPrimeOffset)
-  let step (s : Float) : Float := s - (-fK) * (fM0 + fM1 * s + fEB * (fM0 + fM1 * s).sin).sin
-  let s5 := step (step (step (step (step s0))))
-  let delta := deltaEtTaiF (s5 + ttSecondsF)
+  let delta := etTgtDeltaG Float.sin fK fEB fM0 fM1 ttSecondsF (toSecondsF (Dur.sub p etPrimeOffset))
   Dur.sub (Dur.add p (secondsDur delta)) etPrimeOffset
 
 /-- TDB target arm (iteration with early exit) -/
 def taiToTdb (p : Dur) : Dur :=
-  let s0 := toSecondsF (Dur.sub p etPrimeOffset)
-  let rec loop (n : Nat) (seconds delta : Float) : Float :=
-    match n with
-    | 0 => seconds
-    | n + 1 =>
-      let next := seconds - innerGF seconds
-      let newDelta := (next - seconds).abs
-      if (newDelta - delta).abs < f1em9 then seconds else loop n next newDelta
-  let s := loop 5 s0 f1e8
-  let gamma := innerGF (s + ttSecondsF)
+  let gamma := tdbTgtGammaG Float.sin Float.abs fTAU f360 gG0 gG1 gK gEB ttSecondsF f1em9 f1e8
+                 (toSecondsF (Dur.sub p etPrimeOffset))
   let delta := Dur.add (secondsDur gamma) ttOffset
   Dur.sub (Dur.add p delta) etPrimeOffset
 
